@@ -85,17 +85,17 @@ def _kv(line):
 
 
 def _parse_rw(rest):
-    m = re.match(r'(\d+)\s+(.*?)\s+=>(?:\s\s?(.*))?$', rest)
+    m = re.match(r'(\d+|\*)\s+(.*?)\s+=>(?:\s\s?(.*))?$', rest)
     if not m:
         raise Undecided('bad rewrite directive: %r' % rest)
-    return int(m.group(1)), m.group(2), m.group(3) or ''
+    return (-1 if m.group(1) == '*' else int(m.group(1))), m.group(2), m.group(3) or ''
 
 
 def _apply_rw(text, rules, what, log):
     for (cnt, rx, repl) in rules:
         text, n = re.subn(rx, repl, text, flags=re.S)
         log.append({'in': what, 'regex': rx, 'replacement': repl, 'expected': cnt, 'matched': n})
-        if n != cnt:
+        if cnt >= 0 and n != cnt:
             raise Undecided('rewrite %r in %s matched %d times, expected %d' % (rx, what, n, cnt))
     return text
 
@@ -219,6 +219,13 @@ def expand(template_path, repo=REPO):
             meta['items'].append('%s :: %s' % (a['file'], a['item']))
             out.append(txt)
             i += 1
+        elif s.startswith('//@shim '):
+            # //@shim unit=<provider unit> | item=<fn item or id>
+            # emits the provider unit's contract for that function as a TRUSTED (external_body) signature: the contract
+            # text is read from the provider's template (single source of truth), the signature from /repo.
+            a = _kv(s[len('//@shim '):])
+            out.append(_emit_shim(a, src, meta))
+            i += 1
         elif s.startswith('//@fn '):
             fb = FnBlock(_kv(s[len('//@fn '):]))
             i += 1
@@ -306,7 +313,8 @@ def _emit_fn(fb, src, out, meta):
                     raise Undecided('%s: loop %d is not a for loop' % (label, k))
             spec = '\n'.join(fb.loops.get(k, []))
             body = body[:kw_at] + head.rstrip() + '\n' + spec + '\n' + body[open_at:]
-    name = new_name or a['item']
+    fname = new_name or a['item']
+    name = a.get('id') or fname      # bookkeeping id (unique per unit); fname is the Rust fn name
     spec = '\n'.join(fb.spec)
     mk = '/*VX-BEGIN %s*/' % name
     mke = '/*VX-END %s*/' % name
@@ -315,18 +323,76 @@ def _emit_fn(fb, src, out, meta):
         pre = '#[verifier::exec_allows_no_decreases_clause]\n'
     out.append('%s%s%s\n%s\n%s%s' % (mk, pre, sig, spec, body, mke))
     nclauses = len(re.findall(r'(?m),\s*$', spec))
-    meta['functions'].append({'label': label, 'name': name, 'marker': mk, 'marker_end': mke,
+    if any(f['name'] == name for f in meta['functions']):
+        raise Undecided('duplicate function id %r in unit (use id=...)' % name)
+    meta['functions'].append({'label': label, 'name': name, 'fname': fname, 'marker': mk, 'marker_end': mke,
                               'clauses': nclauses, 'spec': spec.strip()})
     if 'novac' not in a['flags']:
         # vacuity twin: same requires, `ensures false`; must FAIL (precondition satisfiable, an exit reachable)
         vname = name + '__vac'
-        vsig = re.sub(r'\bfn\s+%s\b' % re.escape(name), 'fn ' + vname, sig, count=1)
+        vsig = re.sub(r'\bfn\s+%s\b' % re.escape(fname), 'fn ' + fname + '__vac', sig, count=1)
         req = _requires_only(spec)
         vmk = '/*VX-BEGIN %s*/' % vname
         vmke = '/*VX-END %s*/' % vname
         # recursion inside twin: keep calling the original
         out.append('%s%s%s\n%s\n    ensures false,\n%s%s' % (vmk, pre, vsig, req, body, vmke))
         meta['vacuity_twins'].append({'label': label, 'name': vname, 'marker': vmk, 'marker_end': vmke})
+
+
+def _parse_fn_blocks(template_path):
+    """Parse the //@fn blocks of a template (no extraction) -> list of FnBlock."""
+    lines = open(template_path).read().split('\n')
+    res = []
+    i = 0
+    while i < len(lines):
+        st = lines[i].strip()
+        if st.startswith('//@fn '):
+            fb = FnBlock(_kv(st[len('//@fn '):]))
+            i += 1
+            cur = None
+            while i < len(lines) and lines[i].strip() != '//@end':
+                t_ = lines[i].strip()
+                if t_.startswith('//@ sig '):
+                    fb.sig_rw.append(_parse_rw(t_[len('//@ sig '):])); cur = None
+                elif t_.startswith('//@ rw '):
+                    cur = None
+                elif t_ == '//@ spec':
+                    cur = fb.spec
+                elif t_.startswith('//@ loop ') or t_.startswith('//@ forghost '):
+                    cur = None if t_.startswith('//@ forghost') else []
+                elif cur is not None:
+                    cur.append(lines[i])
+                i += 1
+            res.append(fb)
+        i += 1
+    return res
+
+
+def _emit_shim(a, src, meta):
+    unit = a['unit']
+    tpl = os.path.join(VERIF, 'units', unit, 'unit.vrs')
+    want = a['item']
+    fbs = [fb for fb in _parse_fn_blocks(tpl) if (fb.args.get('id') or fb.args.get('as') or fb.args['item']) == want]
+    if len(fbs) != 1:
+        raise Undecided('shim: provider unit %s has %d fn blocks named %r' % (unit, len(fbs), want))
+    fb = fbs[0]
+    pa = fb.args
+    t, m = src(pa['file'])
+    scope = [x.strip() for x in pa.get('scope', '').split(';;') if x.strip()]
+    try:
+        it = rsrc.find_item(t, scope, 'fn ' + pa['item'], m)
+    except rsrc.AnchorError as e:
+        raise Undecided('shim anchor %s :: fn %s: %s' % (pa['file'], pa['item'], e))
+    sig = it.signature
+    sig = re.sub(r'^(pub(\([a-z]+\))?\s+)?', 'pub ', sig)
+    if pa.get('recv') == 'mut':
+        sig = re.sub(r'\(\s*&\s*self\b', '(&mut self', sig)
+    sig = _name_return(sig, pa.get('ret', 'r'))
+    if pa.get('as'):
+        sig = re.sub(r'\bfn\s+%s\b' % re.escape(pa['item']), 'fn ' + pa['as'], sig, count=1)
+    sig = _apply_rw(sig, fb.sig_rw, 'shim %s::%s (signature)' % (unit, want), meta['rewrites'])
+    meta.setdefault('shims', []).append('%s :: %s (contract proved in unit %s)' % (pa['file'], pa['item'], unit))
+    return '#[verifier::external_body] /*SHIM: contract proved in unit %s*/\n%s\n%s\n{ unimplemented!() }' % (unit, sig, '\n'.join(fb.spec))
 
 
 def _requires_only(spec):
@@ -453,7 +519,7 @@ def run_unit(unit_dir, workdir, tier='quick', rlimit=None, repo=REPO, extra_args
     res['vacuity'] = {'twins': len(twins), 'twins_failed_as_required': len(twins) - len(vac_missing),
                       'canaries_expected': sorted(exp_fail), 'canaries_failed_as_required': sorted(canary_seen)}
     for f in meta['functions']:
-        key = [k for k in fb if k.endswith('::' + f['name'])]
+        key = [k for k in fb if k.endswith('::' + f.get('fname', f['name']))]
         ok = f['name'] not in failed
         fr = {'function': f['label'], 'name': f['name'], 'contract_form': 'verus requires/ensures spliced on extracted body',
               'clauses': f['clauses'], 'discharged': ok,
@@ -468,7 +534,7 @@ def run_unit(unit_dir, workdir, tier='quick', rlimit=None, repo=REPO, extra_args
         res['failures'].append({'unit': name, 'function': '(unit lemma / prelude) line %s' % e['lines'][:1],
                                 'fn_name': _enclosing_fn(text, e['lines']), 'obligation': e['msg'],
                                 'detail': '\n'.join(e['text'])})
-    res['meta'] = {'items': meta['items'], 'rewrites': meta['rewrites']}
+    res['meta'] = {'items': meta['items'], 'rewrites': meta['rewrites'], 'shims': meta.get('shims', [])}
     res['assumption_scan'] = scan_assumptions(text)
     n_lemmas = len(re.findall(r'\bproof fn\b', text)) - len(exp_fail)
     res['lemmas'] = max(n_lemmas, 0)
